@@ -40,7 +40,11 @@ TOPOS = ["popen", "python", "via", "socket"]
 def shards(tier, seed):
     n = 6 if tier == "quick" else 8
     per = 6 if tier == "quick" else 190
-    return [{"cases": per, "conc": 6 if tier == "quick" else 12} for _ in range(n)]
+    out = [{"kind": "procs", "cases": per, "conc": 6 if tier == "quick" else 12} for _ in range(n)]
+    nsw = 2 if tier == "quick" else 6
+    for i in range(nsw):
+        out.append({"kind": "inproc", "part": i, "parts": nsw, "ks": [1, 2] if tier == "quick" else [1, 2, 3, 4], "noise_runs": 20 if tier == "quick" else 400})
+    return out
 
 
 def gen_case(rng, idx):
@@ -158,7 +162,78 @@ def _tail(path, n=400):
         return ""
 
 
+def run_inproc(spec):
+    """The worker's own way out, at line granularity: an in-process WorkerGateway (real classes, real pipe/TCP) whose
+    initiator end is cut while a task is finishing; serve() returning is the in-process equivalent of the worker process
+    exiting.  Single-pre-emption sweep over the functions the exit ladder is made of."""
+    from execnet import gateway_base as gb
+    from vlib import imodel
+    from vlib import pairs
+
+    res = Result()
+    rng = core.rng_for("C11i", spec["tier"], spec["seed"], spec["shard"])
+    pre = imodel.Preempt(core.REPO_SRC)
+    pre.install()
+    try:
+        lines = imodel.function_lines(gb.WorkerPool.integrate_as_primary_thread, gb.WorkerPool.trigger_shutdown, gb.WorkerPool._perform_spawn,
+                                      gb.WorkerPool.waitall, gb.WorkerGateway._terminate_execution, gb.WorkerGateway.serve,
+                                      gb.WorkerGateway.executetask, gb.BaseGateway._thread_receiver, gb.ChannelFactory._finished_receiving)
+        todo = [(ln, k) for ln in lines for k in spec["ks"]]
+        todo = [t for i, t in enumerate(todo) if i % spec["parts"] == spec["part"]] + [(None, i) for i in range(spec["noise_runs"])]
+        res.info["inproc_sweep_lines"] = len(lines)
+        for ln, k in todo:
+            if res.enough(3):
+                break
+            model = rng.choice(("thread", "main_thread_only"))
+            sched = imodel.Sched(rng.getrandbits(32), p_yield=0.1, p_sleep=0.02)
+            pair = pairs.Pair(rng.choice(("pipe", "tcp")), worker_backend=model, sched=sched)
+            gw = pair.gw
+            label = f"in-process worker {model}: " + (f"stall at line {ln[1]} hit {k}" if ln else f"line noise run {k}")
+            try:
+                for _ in range(rng.choice((0, 1, 2))):
+                    gw.remote_exec("channel.send(1)").waitclose(10)
+                if ln is None:
+                    pre.set_noise(rng.getrandbits(32), rng.choice((0.05, 0.2)))
+                else:
+                    pre.restart()
+                    pre.set_sweep(ln[0], ln[1], k, stall=0.03)
+                # a task that is just finishing when the initiator goes away
+                last = gw.remote_exec(rng.choice(("pass", "channel.send(2)", "import time\ntime.sleep(0.002)")))
+                if rng.random() < 0.5:
+                    try:
+                        last.waitclose(10)
+                    except BaseException:
+                        pass
+                t0 = time.monotonic()
+                # the initiator disappears: both directions of its end are closed
+                pairs._bounded(pair.raw_a.close_write, 1.0)
+                pairs._bounded(pair.raw_a.close_read, 1.0)
+                done = pair.worker_done.wait(12.0)
+                dt = time.monotonic() - t0
+                pre.off()
+                res.count("cases")
+                res.count("inproc_worker_exits")
+                if ln is not None and pre.fired:
+                    res.count("sweep_fired")
+                res.case(core.h64("inproc", model, ln, k))
+                res.sig(sched.signature()[:2000])
+                if not done:
+                    res.violation(f"worker-serve-did-not-return-after-connection-loss:{model}", f"{label}: still serving {dt:.1f}s after its initiator end was closed")
+                res.info.setdefault("inproc_worker_exit_latency_s", {})[model] = round(dt, 3)
+            except BaseException as e:
+                res.violation(f"inproc-run-raised:{type(e).__name__}", f"{label}: {e}")
+            finally:
+                pre.off()
+                pair.close(1.0)
+        res.sample({"inproc_worker_exit_runs": len(todo), "lines": len(lines)})
+    finally:
+        pre.uninstall()
+    return res
+
+
 def run_shard(spec):
+    if spec.get("kind") == "inproc":
+        return run_inproc(spec)
     res = Result()
     rng = core.rng_for("C11", spec["tier"], spec["seed"], spec["shard"])
     cases = [gen_case(rng, i) for i in range(spec["cases"])]
